@@ -25,8 +25,8 @@ void tinyjambu_hash(unsigned char *out, const unsigned char *in, size_t inlen);
 void counted_tinyjambu_hash(unsigned char *out, const unsigned char *in, size_t inlen)
 { ++abs_oneshot; tinyjambu_hash(out, in, inlen); }
 #endif
-#ifndef K
-#define K 32
+#ifndef KDELIV
+#define KDELIV 32
 #endif
 #ifndef SIZE
 #define SIZE 0
@@ -42,7 +42,7 @@ IN_DECL(V, 32); IN_DECL(C, 32); IN_DECL(data, LEN + CUSTOMLEN); IN_DECL(ent, 32 
 IN_DECL(V2, 32);
 IN_U32_DECL(ctr); IN_U32_DECL(limit); IN_U64_DECL(E); IN_U64_DECL(x); IN_U32_DECL(trng_ok); uint64_t IN_raw[12];
 
-/* ---- entropy callback stub: delivers K symbolic bytes, returns K ---------------------------- */
+/* ---- entropy callback stub: delivers KDELIV symbolic bytes, returns KDELIV ---------------------------- */
 static int nreq;
 static unsigned char seen_before[MAXREQ][32];
 static size_t seen_size[MAXREQ];
@@ -57,14 +57,14 @@ static size_t entropy_cb(void *ud, unsigned char *buf, size_t size)
 #ifdef SYM
     /* symbolic counter / limit: the request index is path-dependent; deliver from slot 0, log nothing */
     (void)id; (void)ud; (void)size;
-    for (unsigned i = 0; i < K; ++i) buf[i] = IN_ent[i];
+    for (unsigned i = 0; i < KDELIV; ++i) buf[i] = IN_ent[i];
     if (0) {
 #else
     if (id < MAXREQ) {
 #endif
         seen_size[id] = size; seen_ud[id] = ud;
         for (unsigned i = 0; i < 32; ++i) seen_before[id][i] = buf[i];
-        for (unsigned i = 0; i < K; ++i) buf[i] = IN_ent[32 * id + i];
+        for (unsigned i = 0; i < KDELIV; ++i) buf[i] = IN_ent[32 * id + i];
     }
     /* C16 ghost: everything emitted up to now since the previous request */
     /* bytes carried over from earlier calls were checked against the limit in force when they were
@@ -74,7 +74,7 @@ static size_t entropy_cb(void *ud, unsigned char *buf, size_t size)
         if (ghostE > ghost_limit32) ghost_bad = 1;
     }
     ghostE = 0; blocks_at_mark = abs_oneshot;
-    return K;
+    return KDELIV;
 }
 /* system source stub for variant 6 */
 static int trng_calls;
@@ -104,7 +104,7 @@ static void check_state(const spec_drbg_t *d, uint32_t limit)
 static void model_reseed(spec_drbg_t *d, int id)
 {
     unsigned char e[32];
-    for (unsigned i = 0; i < 32; ++i) e[i] = (i < K) ? IN_ent[32 * id + i] : d->V[i];
+    for (unsigned i = 0; i < 32; ++i) e[i] = (i < KDELIV) ? IN_ent[32 * id + i] : d->V[i];
     spec_drbg_reseed(d, e);
 }
 
@@ -202,7 +202,7 @@ VERIF_MAIN_BEGIN
         model_reseed(&d, 0);
         check_state(&d, limit);
         CHECK(ps.reseed_counter == 1, "reseed resets the counter to 1");
-        CHECK((r != 0) == (K == 32), "reseed reports success exactly when 32 bytes were delivered");
+        CHECK((r != 0) == (KDELIV == 32), "reseed reports success exactly when 32 bytes were delivered");
     }
 #elif VARIANT == 4
     {
@@ -215,12 +215,12 @@ VERIF_MAIN_BEGIN
         r = tinyjambu_prng_init_user(&pub, entropy_cb, &cookie, data, CUSTOMLEN);
         CHECK(nreq == 1 && seen_size[0] == 32 && seen_ud[0] == &cookie, "init makes exactly one 32-byte request");
         for (unsigned i = 0; i < 32; ++i) CHECK(seen_before[0][i] == 0, "seed buffer is zeroed before the request");
-        for (unsigned i = 0; i < 32; ++i) e[i] = (i < K) ? IN_ent[i] : 0;
+        for (unsigned i = 0; i < 32; ++i) e[i] = (i < KDELIV) ? IN_ent[i] : 0;
         spec_drbg_instantiate(&d, e, IN_data, CUSTOMLEN);
         for (unsigned i = 0; i < 32; ++i) CHECK(pp->V[i] == d.V[i] && pp->C[i] == d.C[i], "init: V = Hash_df(entropy || custom), C = Hash_df(00 || V)");
         CHECK(pp->reseed_counter == 1 && pp->reseed_limit == 32, "init: counter 1, limit 32 blocks = 1024 bytes");
         CHECK(pp->callback == entropy_cb && pp->user_data == &cookie, "init stores callback and user data");
-        CHECK((r != 0) == (K == 32), "init reports success exactly when 32 bytes were delivered");
+        CHECK((r != 0) == (KDELIV == 32), "init reports success exactly when 32 bytes were delivered");
     }
 #elif VARIANT == 5
     {
@@ -273,8 +273,8 @@ VERIF_MAIN_BEGIN
     }
 #elif VARIANT == 8
     {
-        /* a SHORT delivery is still mixed in: same state, deliveries differing in the K delivered bytes;
-         * the new V's must be able to differ (K >= 1) */
+        /* a SHORT delivery is still mixed in: same state, deliveries differing in the KDELIV delivered bytes;
+         * the new V's must be able to differ (KDELIV >= 1) */
         static tinyjambu_prng_state_p_t q;
         int same = 1, r1, r2;
         mk_state(1, 32);
@@ -290,7 +290,7 @@ VERIF_MAIN_BEGIN
         r2 = tinyjambu_prng_init_user(&b, entropy_cb, &cookie, 0, 0);
         for (unsigned i = 0; i < 4; ++i) if (a.s[i] != b.s[i]) same = 0;
 #endif
-        CHECK((r1 != 0) == (K == 32) && (r2 != 0) == (K == 32), "status is truthful");
+        CHECK((r1 != 0) == (KDELIV == 32) && (r2 != 0) == (KDELIV == 32), "status is truthful");
         MUSTFAIL(same, "bytes of a short delivery are still mixed into the state");
     }
 #endif
